@@ -229,8 +229,8 @@ func runC18(w *W) {
 		add(math.Float64frombits(1<<b | r.Uint64()&(1<<b-1)))
 	}
 	// integers up to 2^63 scaled by powers of ten; 15/16/17 significant digits
-	nInt := 100000
-	nRand := 2000000
+	nInt := 400000
+	nRand := 10000000
 	if th {
 		nInt = 3000000
 		nRand = 300000000
